@@ -394,7 +394,10 @@ MvSkip(s) ==                     \* if (m_thread) return *this;
 MvCreate(s) ==                   \* new QThread, connect aboutToQuit, new Worker, start
     /\ pc[s] = "mv.locked" /\ ~tptr
     /\ tptr' = TRUE /\ wptr' = TRUE /\ thr' = "running" /\ wobj' = "alive"
-    /\ hooked' = (app = "alive")
+    \* the new thread object is the context of the aboutToQuit connection: the hook is called on the thread that
+    \* object lives on.  The code moves it to the main thread (conf.rehome); left where it was created, on a thread
+    \* without an event loop, the hook would never run
+    /\ hooked' = (app = "alive" /\ (conf.rehome \/ s = "M"))
     /\ pc' = [pc EXCEPT ![W] = "loop", ![s] = "mv.started"]
     /\ UNCHANGED <<lm, hm, queue, pending, app, hobj, stale, cur, todo, script, inPipe, ctr, rd, delivered, accepted, ghost>>
 
@@ -445,7 +448,7 @@ AppDestroy(s) ==
 ---------------------------------------------------------------------------
 Init ==
     /\ conf \in [useLogger : BOOLEAN, recheck : BOOLEAN, safeEnv : BOOLEAN, locks : BOOLEAN, eager : BOOLEAN, rt : BOOLEAN,
-               disc : BOOLEAN, fatalEvery : 0..9]
+               disc : BOOLEAN, fatalEvery : 0..9, rehome : BOOLEAN]
     /\ lm = [owner |-> NoOne, depth |-> 0] /\ hm = NoOne
     /\ tptr = FALSE /\ wptr = FALSE /\ thr = "none" /\ wobj = "none"
     /\ queue = <<>> /\ pending = 0 /\ app = "none" /\ hooked = FALSE /\ hobj = "alive" /\ stale = 0
@@ -524,6 +527,9 @@ DrainBeforeStop ==
 NoUseAfterFree == ~ghost.crashed
 \* a producer that logs while the logger is stopped (no worker) delivers synchronously, on its own thread
 LateMessagesSync == (delivered # <<>> /\ ~LastD.async) => LastD.by = LastD.m[1]
+\* the application never quits past a running logger thread without a hook that stops it
+QuitFindsHook == [][\A s \in Stoppers : (pc[s] = "idle" /\ script[s] # <<>> /\ Head(script[s]) = "execQuit" /\ script'[s] # script[s])
+                                          => (tptr => hooked)]_vars
 \* every stop request returns
 ResetTerminates == \A s \in Stoppers : (pc[s] = "rs.enter") ~> (pc[s] = "idle")
 \* finally everything that was logged has been delivered exactly once
